@@ -233,12 +233,24 @@ def r3_monotone(F, res, rid):
         if "::tests::" in f.path:
             continue
         tb = None
+        # a lookahead set that is assigned as a whole (`*item.follow.borrow_mut() = ..`) is not "only grown"
+        for bi, si, s in f.stmts():
+            dst = s["dst"]
+            if dst["proj"] and dst["proj"][-1]["k"] == "deref" and len(dst["proj"]) == 1 and "BTreeSet" in f.local_ty(dst["l"]) \
+                    and f.local_ty(dst["l"]).startswith("&mut"):
+                tb = tb or TermBuilder(f, F)
+                if has_field(tb.local(dst["l"]), "follow", "LRItem"):
+                    n += 1
+                    res.violation(rid, "%s/store" % f.path.split("::{closure")[0].rsplit("::", 1)[-1],
+                                  "a lookahead set of an LR item is overwritten (lookaheads may only be added)", "%s:%s" % (f.file, s.get("line")))
         for b, t in f.calls():
             c = callee(t)
-            if "BTreeSet" not in c or not t["args"]:
+            if not t["args"]:
                 continue
             a0 = t["args"][0]
-            if not (a0["k"] in ("copy", "move") and f.local_ty(a0["p"]["l"]).startswith("&mut")):
+            if not (a0["k"] in ("copy", "move") and f.local_ty(a0["p"]["l"]).startswith("&mut") and "BTreeSet" in f.local_ty(a0["p"]["l"])):
+                continue
+            if any(c.endswith(x) for x in ("::deref_mut", "::deref", "::borrow_mut", "::iter", "::len", "::is_empty", "::contains")):
                 continue
             tb = tb or TermBuilder(f, F)
             recv = tb.operand(a0)
@@ -568,14 +580,26 @@ def r8_merge(F, res, rid):
     else:
         res.violation(rid, "different-core", "merge_state does not return false untouched for states with different kernel cores", f.loc())
     # compatibility scan iff table type != LALR; every `return false` precedes the first extend
-    for p in paths:
-        r = [e for e in p.events if e[0] == "return"]
-        ex = [i for i, e in enumerate(p.events) if e[0] == "call" and e[1].endswith("::extend") and has_field(e[2][0], "follow", "LRItem")]
-        if r and r[0][1] == ("const", 0) and ex:
-            res.violation(rid, "all-or-nothing", "merge_state can return false after lookaheads were already merged into the old state", f.loc())
-            break
+    # all-or-nothing, on the flow graph (the merging `extend` sits in a loop, which a single acyclic path does not cross):
+    # no block that assigns `false` to the return place is reachable from a block that extends an item's lookaheads
+    tbf = TermBuilder(f, F)
+    ext_blocks = [b for b, t2 in f.calls() if callee(t2).endswith("::extend") and t2["args"] and has_field(tbf.operand(t2["args"][0]), "follow", "LRItem")]
+    false_blocks = [bi for bi, si, s in f.stmts() if s["dst"]["l"] == 0 and not s["dst"]["proj"] and s["rv"]["k"] == "use"
+                    and s["rv"]["op"]["k"] == "const" and s["rv"]["op"].get("int") == 0]
+    def reach(b0):
+        seen, st = {b0}, [b0]
+        while st:
+            for s2 in f.succ(st.pop()):
+                if s2 not in seen:
+                    seen.add(s2)
+                    st.append(s2)
+        return seen
+    if not ext_blocks or not false_blocks:
+        res.anchor_lost(rid, "merge_state: merging extend / `return false` not recognised", f.loc())
+    elif any(fb in reach(eb) for eb in ext_blocks for fb in false_blocks):
+        res.violation(rid, "all-or-nothing", "merge_state can return false after lookaheads were already merged into the old state", f.loc())
     else:
-        res.ok(rid, "all-or-nothing", f.loc(), "no extend on a path that returns false")
+        res.ok(rid, "all-or-nothing", f.loc(), "no `return false` is reachable from the merging extend")
     tt = [v for p in paths for t, v in p.cond if is_call(t, "::ne") and any(has_field(a, "table_type", "Settings") for a in t[2])
           or (is_call(t, "::eq") and any(has_field(a, "table_type", "Settings") for a in t[2]))]
     if tt:
